@@ -79,7 +79,7 @@ CLAIMED = {
         'modulo an explicit bijective renumbering; scalar kernels (avg2/avg3, loop-filter clamps and conversions) equal the reference forms; the imperative kernels translated every run by rs2v_imp '
         '(simple / sub-block / macroblock edge filters at every edge position of every array, idct4x4, iwht4x4 within the sharp exact-cast bounds) equal Spec.VP8; calculate_filter_parameters = '
         'Spec filter_strength; the per-segment block of read_quantization_indices = Spec segment_quant (six dequantisation factors) for every expressible header, without overflow. The parsing functions (Model/Vp8Parse.v over the C15 boolean-decoder model, tied by the vp8parse correspondence on a real Vp8Decoder) equal the reference parser function by function '
-        '(read_coefficients, read_macroblock_header, the header blocks, read_residual_data for both macroblock kinds); intra prediction (Model/Vp8Predict.v: 4x4, 16x16, 8x8 predictors, add_residue, borders) equals the reference predictors. Frame-level parsing is proved: read_frame_header = the reference header in every field, and header + macroblock loop of decode_frame_ (Model/Vp8Frame.v, tied to the real decode_frame_ by recording hooks) = the reference parse of every macroblock (F.parse_frame_refines). The sub-block prediction loop with write-back and the '
+        '(read_coefficients, read_macroblock_header, the header blocks, read_residual_data for both macroblock kinds); intra prediction (Model/Vp8Predict.v: 4x4, 16x16, 8x8 predictors, add_residue, borders) equals the reference predictors. Frame-level parsing is proved: read_frame_header = the reference header in every field, and header + macroblock loop of decode_frame_ (Model/Vp8Frame.v, tied to the real decode_frame_ by recording hooks) = the reference parse of every macroblock (F.parse_frame_refines). Frame-level reconstruction is proved too: per-macroblock prediction incl. the sub-block loop and write-back, the loop-filter pass and the crop (Model/Vp8Recon.v, tied to the real decode_frame_ by recording hooks), fed the reference parse results, give exactly the planes of Spec.VP8.decode_frame (X.decode_frame_recon_is_spec). Only the last composition step (parse relation => reconstruction input relation, i.e. one theorem decode_frame = Spec.VP8.decode) is not yet stated. (Formerly:) the '
         'workspace/border bookkeeping are NOT proved: they are covered by whole-frame correspondence implementation = Spec.VP8.decode (executable Coq transcription of libwebp, '
         'validated against compiled libwebp each run) on generated key frames, plus native comparison with libwebp.',
    note='Trusted: Coq kernel, rs2v translator, Spec/VP8.v + Spec/VP8Tables.v (hand transcription of libwebp 1.3.1; RFC 6386 text unavailable offline) validated by c02spec, extraction, '
